@@ -43,6 +43,7 @@ if [ $clean_rc -eq 0 ] && [ $mut_rc -ne 0 ] && [ $tests_rc -eq 0 ]; then
   cp "$src/patch.diff" /verif/seeded/$id/patch.diff
   cp "$demo" /verif/seeded/$id/demo_test.go
   cp "$src/notes.md" /verif/seeded/$id/notes.md 2>/dev/null
+  python3 /verif/tools/seedmeta.py "$id" "$pkgdir" "$(echo $touched | tr '\n' ' ')" "$(git -C /repo rev-parse --short HEAD)"
   echo "$id CONFIRMED pkg=$pkgdir touched=$(echo $touched | tr '\n' ' ')"
 else
   echo "$id REJECTED clean_rc=$clean_rc mut_rc=$mut_rc tests_rc=$tests_rc (see $log)"
